@@ -63,6 +63,9 @@ CHECKS["C18"] = ("invariant checking over generated and injected sources (token 
 CHECKS["C20"] = ("metamorphic repetition testing (fresh processes and fresh VMs), generated enumeration-order programs against a known insertion order, and ordered-pair residue testing",
          "Generated class and control-flow programs run k times (6 quick / 21 thorough) on fresh VMs in one process and in fresh CLI processes with byte-identical output, diagnostics and status required; declaration/insertion order of properties and keyed entries through foreach / json_encode / get_object_vars compared with the order the generator knows; every ordered pair of residue-leaving programs run as [A, B] vs [B] in one process; the statically deterministic corpus files repeated in fresh processes.",
          "Go map-iteration randomisation is the adversary: k = 21 leaves a 2-way order dependence undetected with probability 2^-20; corpus determinism is decided by a static denylist, never by running twice.")
+CHECKS["C16"] = ("translation validation: generated programs compiled by `origami compile`, built into one Go binary per batch and run compiled vs interpreted (differential on stdout, exit status, diagnostic)",
+         "Batches of generated programs (control flow, namespaced exceptions, expressions, class programs, class hierarchies) and the deterministic corpus files: each is translated by its own compile invocation, the generated Go sources are built once per batch against /repo, and the compiled and interpreted runs must agree on stdout bytes, exit status and the location-free diagnostic; a rejected file must be reported by name, generated code must build.",
+         "Only programs the generators produce plus the filtered corpus; the node constructors that appeared in generated Go sources are listed in the evidence labels.")
 NOT_YET = {
 }
 
